@@ -1,17 +1,94 @@
 (* C01 -- Message serialisation round-trips exactly and its size is exact.
-   Property theorems only: each is closed by [exact] of a lemma proved under Msg/. *)
+   Property theorems only: each is closed by [exact] of a lemma proved under Msg/.
+
+   Reading guide.  [msg] is the model of a muscle::Message (Msg/MsgDefs.v); [flatten], [flattened_size],
+   [unflatten] mirror Message::Flatten/FlattenedSize/Unflatten and everything below them (Msg/MsgModel.v);
+   [wf m] = structurally well-formed (unique NUL-free field names, items fit their type codes, strings
+   NUL-free) and representable (what-code, type codes and the flattened size below 2^32);
+   [rt m] = [norm_msg (strip_msg m)]: the fields that are never written (pointers, tags) removed and every
+   one-item array turned into an inline item -- the only two ways in which the parsed Message may differ from
+   the original; [content_msg] forgets the inline/array state.  All theorems quantify over every Message of
+   any size, field order and nesting depth. *)
 From Coq Require Import List NArith.
-From Muscle Require Import Msg.MsgDefs Msg.MsgModel Msg.MsgApi Msg.MsgBytesProofs Msg.MsgSizeProofs Msg.MsgRoundTrip.
+From Muscle Require Import Msg.MsgDefs Msg.MsgModel Msg.MsgApi Msg.MsgBytesProofs Msg.MsgSizeProofs
+  Msg.MsgRoundTrip Msg.MsgReprProofs Msg.MsgApiProofs Msg.MsgEqProofs Msg.MsgExamples.
 Local Open Scope N_scope.
 
-(* the advertised flattened size is the number of bytes written, for every well-formed Message *)
+(* 1. the advertised flattened size is the number of bytes written *)
 Theorem C01_flatten_length : forall m : msg, wf_msg m -> len (flatten m) = flattened_size m.
 Proof. exact flatten_length. Qed.
 Print Assumptions C01_flatten_length.
 
-(* parsing the serialised bytes yields the original Message: non-flattenable fields dropped (strip), one-item
-   arrays returned as inline items (norm), everything else -- what-code, field order, names, type codes, item
-   counts, item bytes at every nesting level -- identical *)
+(* 2. parsing the serialised bytes yields the original Message (modulo strip and norm) *)
 Theorem C01_unflatten_flatten : forall m : msg, wf m -> unflatten (flatten m) = Ok (rt m).
 Proof. exact unflatten_flatten. Qed.
 Print Assumptions C01_unflatten_flatten.
+
+(* 3. ... and [rt m] has exactly the content of the original's flattenable part: same what-code, same fields
+   in the same order, same type codes, same item counts, identical item bytes, at every nesting level *)
+Theorem C01_rt_content : forall m : msg, content_msg (rt m) = content_msg (strip_msg m).
+Proof. exact rt_content. Qed.
+Print Assumptions C01_rt_content.
+
+(* 4. serialising the parsed Message reproduces the original bytes; the advertised size is unchanged *)
+Theorem C01_reflatten : forall m : msg, wf_msg m -> flatten (rt m) = flatten m.
+Proof. exact reflatten. Qed.
+Print Assumptions C01_reflatten.
+
+Theorem C01_resize : forall m : msg, wf_msg m -> flattened_size (rt m) = flattened_size m.
+Proof. exact resize. Qed.
+Print Assumptions C01_resize.
+
+(* 5. the content checksum is unchanged by the trip, whatever the hash function is *)
+Theorem C01_checksum_roundtrip : forall (hash : bytes -> N) (m : msg), chk_msg hash false (rt m) = chk_msg hash false m.
+Proof. exact checksum_roundtrip. Qed.
+Print Assumptions C01_checksum_roundtrip.
+
+(* 6. equality of two Messages is unchanged by the trip, whatever the (symmetric) equality of leaf values is
+   -- so IEEE NaN <> NaN does not matter -- for every fuel and in particular for the adequate one *)
+Theorem C01_eq_roundtrip :
+  forall (ieq : ftype -> bytes -> bytes -> bool), (forall ft a b, ieq ft a b = ieq ft b a) ->
+  forall (fuel : nat) (m n : msg), wf_msg m -> wf_msg n ->
+    msg_eqb ieq fuel (rt m) (rt n) = msg_eqb ieq fuel (strip_msg m) (strip_msg n).
+Proof. exact eq_roundtrip. Qed.
+Print Assumptions C01_eq_roundtrip.
+
+Theorem C01_eq_roundtrip_adequate :
+  forall (ieq : ftype -> bytes -> bytes -> bool) (m n : msg),
+    (forall ft a b, ieq ft a b = ieq ft b a) -> wf_msg m -> wf_msg n ->
+    msg_eq ieq (rt m) (rt n) = msg_eq ieq (strip_msg m) (strip_msg n).
+Proof. exact eq_roundtrip_adequate. Qed.
+Print Assumptions C01_eq_roundtrip_adequate.
+
+Theorem C01_eq_fuel_adequate :
+  forall (ieq : ftype -> bytes -> bytes -> bool) (fuel k : nat) (m n : msg),
+    (depth_msg m <= fuel \/ depth_msg n <= fuel)%nat -> msg_eqb ieq (fuel + k) m n = msg_eqb ieq fuel m n.
+Proof. exact msg_eqb_fuel_adequate. Qed.
+Print Assumptions C01_eq_fuel_adequate.
+
+(* 7. the hypothesis is satisfied by exactly what the public API builds: every sequence of well-typed
+   Add/Prepend/Replace/RemoveData/RemoveName/Rename/Clear operations from the empty Message *)
+Theorem C01_api_reachable_wf : forall ops : list mop, Forall op_ok ops -> wf_msg (run ops empty_msg).
+Proof. exact api_reachable_wf. Qed.
+Print Assumptions C01_api_reachable_wf.
+
+(* 8. side conditions on the translated constants (re-checked whenever /repo's tables change) *)
+Theorem C01_size_tables_ok : forall ft : ftype, ft_fixed ft = true ->
+  wire_size ft = cpp_size ft /\ arr_unit ft = cpp_size ft /\ 0 < cpp_size ft.
+Proof. exact size_tables_ok. Qed.
+Print Assumptions C01_size_tables_ok.
+
+(* 9. the domain boundary F9: a String with an embedded NUL is outside wf and does come back truncated *)
+Theorem C01_nul_string_truncates :
+  unflatten (flatten nul_msg) = Ok (Msg 0 (FCons nm_a Gen.Consts.c_B_STRING_TYPE (RInline (IStr (cons Coq.Init.Byte.x61 nil))) FNil))
+  /\ ~ wf_msg nul_msg.
+Proof. exact nul_string_truncates. Qed.
+Print Assumptions C01_nul_string_truncates.
+
+(* non-vacuity: the premises hold of non-trivial states (proved in Msg/MsgExamples.v) *)
+Example C01_ex_wf : wf ex_msg.
+Proof. exact ex_wf. Qed.
+Example C01_ex_nontrivial : rt ex_msg <> ex_msg /\ unflatten (flatten ex_msg) = Ok (rt ex_msg).
+Proof. exact (conj ex_rt_differs ex_roundtrip). Qed.
+Example C01_ex_ops_ok : Forall op_ok ex_ops /\ wf (run ex_ops empty_msg).
+Proof. exact (conj ex_ops_ok (proj1 ex_ops_result)). Qed.
